@@ -1,4 +1,5 @@
 import ProcSim.Lemmas.LoaderGraph
+import ProcSim.Lemmas.LoaderCycle
 /-!
 # C12 — processor objects list units sink-first and classify ports by connectivity
 
@@ -152,7 +153,7 @@ theorem C12_mkProc_some_of_sinkFirst {ins inouts : List (UnitM N)} {outs interna
   exact postOrder_isSome_of_sinkFirst hl hsub
 
 /-- The constructor succeeds iff the internal units (of pairwise different names) admit a sink-first order, i.e. iff
-the predecessor relation restricted to the internal units has no cycle (`C12_mkProc_none_of_cycle` below for the
+the predecessor relation restricted to the internal units has no cycle (`C12_mkProc_some_iff_acyclic` below for the
 reading with closed walks). -/
 theorem C12_mkProc_some_iff {ins inouts : List (UnitM N)} {outs internal : List (FuncU N)}
     (hn : (internal.map (·.model.name)).Nodup) :
@@ -166,6 +167,15 @@ theorem C12_mkProc_some_iff {ins inouts : List (UnitM N)} {outs internal : List 
     exact ⟨io, this.2.2.2.2.2.2 hn, postOrder_sinkFirst hio⟩
   · rintro ⟨l, hl, hs⟩
     exact C12_mkProc_some_of_sinkFirst hs (fun x hx => hl.mem_iff.2 hx)
+
+/-- The constructor succeeds iff there is no closed walk of internal predecessors (`PredIn internal a b`: `a` names
+an internal unit listed among the predecessors of the internal unit `b`); otherwise `NetworkXUnfeasible` escapes. -/
+theorem C12_mkProc_some_iff_acyclic {ins inouts : List (UnitM N)} {outs internal : List (FuncU N)}
+    (hn : (internal.map (·.model.name)).Nodup) :
+    (mkProc ins outs inouts internal).isSome = true ↔ ¬ ∃ u l, WalkR (PredIn internal) (u :: l ++ [u]) := by
+  unfold mkProc
+  rw [Option.isSome_map]
+  exact postOrder_isSome_iff_acyclic hn
 
 /-! ## loaded processors -/
 
